@@ -160,18 +160,28 @@ structure Result where
   err   : Option Nat
 deriving Repr, DecidableEq
 
+/-- one round of the directive loop: stop (end of step or error) or continue with an optional call -/
+inductive Round where
+  | stop (r : Except Nat AS)
+  | cont (c : Option Call) (a : AS)
+
+def dirStep (a : AS) : Round :=
+  match posMax (N Gen.Directive_t_eMax) a with
+  | .error l => .stop (.error l)
+  | .ok (rt, a1) =>
+    if rt = 0 then .stop (.ok a1) else
+    match directive rt a1 with
+    | .error l => .stop (.error l)
+    | .ok (c, a2) => .cont c a2
+
 /-- the directive loop of `doParse()` (after `beginStep`): fuel = characters left + 1.
     returns the calls of the step (without begin/endStep), `complete` = the terminating 0 was read. -/
 def stepLoop : Nat → AS → List Call → (List Call × Except Nat AS)
   | 0, a, acc => (acc.reverse, .error a.line)
   | f + 1, a, acc =>
-    match posMax (N Gen.Directive_t_eMax) a with
-    | .error l => (acc.reverse, .error l)
-    | .ok (rt, a1) =>
-      if rt = 0 then (acc.reverse, .ok a1) else
-      match directive rt a1 with
-      | .error l => (acc.reverse, .error l)
-      | .ok (c, a2) => stepLoop f a2 (match c with | some c => c :: acc | none => acc)
+    match dirStep a with
+    | .stop r => (acc.reverse, r)
+    | .cont c a2 => stepLoop f a2 (match c with | some c => c :: acc | none => acc)
 
 /-- `doAttach`: header line. `none` = "not aspif" (`match("asp ")` failed → invalid input format). -/
 def header (a : AS) : Option (Except Nat (Bool × AS)) :=
@@ -195,15 +205,15 @@ def more (a : AS) : Bool × AS := let a' := a.skipWs; (a'.peek != 0, a')
 def stepsLoop : Nat → Bool → AS → List Call → Result
   | 0, _, _, acc => { calls := acc, err := some 0 }      -- unreachable with sufficient fuel
   | f + 1, inc, a, acc =>
-    let (cs, r) := stepLoop (a.rest.length + 1) a []
-    let acc1 := acc ++ [.beginStep] ++ cs
-    match r with
+    let r := stepLoop (a.rest.length + 1) a []
+    let acc1 := acc ++ [.beginStep] ++ r.1
+    match r.2 with
     | .error l => { calls := acc1, err := some l }
     | .ok a1 =>
       let acc2 := acc1 ++ [.endStep]
-      let (m, a2) := more a1
-      if m && !inc then { calls := acc2, err := some a2.line }     -- "invalid extra input"
-      else if m then stepsLoop f inc a2 acc2
+      let m := more a1
+      if m.1 && !inc then { calls := acc2, err := some m.2.line }     -- "invalid extra input"
+      else if m.1 then stepsLoop f inc m.2 acc2
       else { calls := acc2, err := none }
 
 /-- `readProgram(str, AspifInput(out), handler)`. -/
